@@ -182,11 +182,25 @@ def int_val(ty, v):
     return CV(ty, z3.IntVal(v))
 
 
+NULLABLE = {}       # z3 term id -> term: object identities that may be 0 (= a NULL pointer), registered by the stubs that return them
+
+
+def mark_nullable(t):
+    NULLABLE[t.get_id()] = t
+    return t
+
+
+def is_nullable(v):
+    return isinstance(v, Ptr) and v.obj == "pyobj" and z3.is_expr(v.off) and v.off.get_id() in NULLABLE
+
+
 def as_bool(v):
     """C truth value of a scalar as z3 Bool."""
     if isinstance(v, Ptr):
         if v.obj is None:
             return z3.BoolVal(False)
+        if is_nullable(v):
+            return v.off != 0
         return z3.BoolVal(True)
     if v.b is not None:
         return v.b
@@ -586,6 +600,10 @@ class CExec:
         if op in ("==", "!=") and isinstance(x, Ptr) and isinstance(y, Ptr):
             if x.obj == y.obj:
                 f = (x.off == y.off) if x.obj is not None else z3.BoolVal(True)
+            elif x.obj is None and is_nullable(y):
+                f = y.off == 0
+            elif y.obj is None and is_nullable(x):
+                f = x.off == 0
             else:
                 f = z3.BoolVal(False)
             return from_bool(f if op == "==" else z3.Not(f), ty)
@@ -924,6 +942,10 @@ class CExec:
         merged = self.merge_states(st.path, c, s1, s2, base)
         st.vars, st.mem, st.path = merged.vars, merged.mem, merged.path
 
+    def mem_default(self, key):
+        """value of a ghost memory cell that has not been written on a path (None: no such notion for this key)"""
+        return None
+
     def merge_states(self, prefix, c, s1, s2, base):
         m = State()
         m.objs, m.names, m.err = s1.objs, s1.names, s1.err
@@ -938,6 +960,12 @@ class CExec:
         for key in set(s1.mem) | set(s2.mem):
             a1, a2 = s1.mem.get(key), s2.mem.get(key)
             if a1 is None or a2 is None:
+                # ghost state with a known "not written yet" value must not leak from the branch that wrote it into the other one
+                d = self.mem_default(key)
+                if d is not None:
+                    a1, a2 = (a1 if a1 is not None else d), (a2 if a2 is not None else d)
+                    m.mem[key] = a1 if a1.eq(a2) else z3.If(c, a1, a2)
+                    continue
                 m.mem[key] = a1 if a1 is not None else a2
             elif a1.eq(a2):
                 m.mem[key] = a1
@@ -1159,6 +1187,10 @@ class CExec:
                 m.vars[key] = self.merge_val(c, s.vars.get(key), acc_s.vars.get(key))
             for key in set(s.mem) | set(acc_s.mem):
                 a1, a2 = s.mem.get(key), acc_s.mem.get(key)
+                if a1 is None or a2 is None:
+                    d = self.mem_default(key)
+                    if d is not None:
+                        a1, a2 = (a1 if a1 is not None else d), (a2 if a2 is not None else d)
                 m.mem[key] = a1 if a2 is None else a2 if a1 is None else (a1 if a1.eq(a2) else z3.If(c, a1, a2))
             m.err = s.err if acc_s.err is None or s.err is None or s.err.eq(acc_s.err) else z3.If(c, s.err, acc_s.err)
             acc_v = self.merge_val(c, v, acc_v) if v is not None and acc_v is not None else None
